@@ -41,7 +41,7 @@ def c02(run):
     def gen(g):
         g.two_byte()
         g.hist(q(run, 300, 4000), (5, 70))
-        g.lora_rx(q(run, 20, 200)); g.lora_tx(q(run, 20, 200)); g.fsk_rx(q(run, 20, 200)); g.fsk_tx(q(run, 20, 200)); g.mixed(q(run, 40, 600))
+        g.lora_rx(q(run, 20, 200)); g.lora_tx(q(run, 20, 200)); g.fsk_rx(q(run, 20, 200)); g.fsk_tx(q(run, 20, 200)); g.mixed(q(run, 40, 600)); g.dumps(q(run, 40, 400))
         g.exh_setters(q(run, [0x00, 0xff], [0, 0xff, 0xaa, 0x55]))
     divs = C.execute(run, gen, strip_faults=True)
     impl_c = run.impl
@@ -91,7 +91,12 @@ def write_faults(run, scripts, impl_c, impl_u, bin_u):
             ex, ey = M.spi_entries(M.fields(x).get('spi')), M.spi_entries(M.fields(y).get('spi'))
             wx = [k for k, e in enumerate(ex) if e['kind'] in ('W', 'WB')]
             wy = [k for k, e in enumerate(ey) if e['kind'] in ('W', 'WB')]
-            if wx and len(wx) == len(wy):
+            if ex and [(e['kind'], e['reg'], e['n']) for e in ex] == [(e['kind'], e['reg'], e['n']) for e in ey]:
+                # both builds issue exactly the same transfers here (e.g. a raw dump, a handler that only touches
+                # never-cache registers): any of them, reads included, can fail in both
+                allk = list(range(len(ex)))
+                elig.append((i, allk, allk))
+            elif wx and len(wx) == len(wy):
                 elig.append((i, wx, wy))
         if not elig:
             continue
